@@ -128,7 +128,8 @@ def _hybrid(chk, repo):
             unparse(a.targets[0]) == f"self.current_samples[{pv}]"
     wbs = [n for n in g.nodes if n.ast is not None and is_writeback(n)]
     ok = bool(wbs) and _every_path_through_body_passes(g, itn, is_writeback)
-    vals_ok = all("sampler.current_point" in unparse(n.ast.value) for n in wbs)
+    _exw = Expander(step)
+    vals_ok = all(any(w_ in unparse(_exw.expand(n.ast.value, _exw.cfg.stmt_node_containing(n.ast) or n)) for w_ in ("sampler.current_point", f"self.samplers[{pv}].current_point")) for n in wbs)
     chk.add("C09-R3", f"{ci.qual}.step/write-back", ok and vals_ok, site(repo, wbs[0].ast if wbs else loop),
             f"self.current_samples[{pv}] = sampler.current_point on every path through the loop body",
             "some path through the loop body reaches the next block without writing the block's new value back to current_samples "
